@@ -1,0 +1,25 @@
+//go:build !verif
+
+package net
+
+import (
+	"context"
+	"net"
+)
+
+// The verification seam is compiled out: simEnabled is a false constant, so
+// every branch guarded by it is dead code.
+const simEnabled = false
+
+type simListener interface {
+	Accept() (net.Conn, error)
+	Close() error
+}
+
+func dialConn(ctx context.Context, d *net.Dialer, addr string) (net.Conn, error) {
+	return d.DialContext(ctx, "tcp", addr)
+}
+
+func simListen(string) (simListener, bool, error) { return nil, false, nil }
+
+func (s *TCPServer) serveSim() error { return nil }
